@@ -62,6 +62,9 @@ fn escape_ntriples_literal(value: &str) -> String {
 fn strip_line_comment(line: &str) -> &str {
     let mut in_iri = false;
     let mut in_literal = false;
+    // The exporters write the terms of a quoted triple without delimiters
+    // (`<< http://e/s#a http://e/p v >>`): inside `<< >>` a `#` belongs to a term.
+    let mut quoted_depth = 0usize;
     let mut characters = line.char_indices().peekable();
     while let Some((offset, character)) = characters.next() {
         match character {
@@ -70,15 +73,21 @@ fn strip_line_comment(line: &str) -> &str {
             }
             '"' if !in_iri => in_literal = !in_literal,
             '<' if !in_literal && !in_iri => {
-                // `<<` opens a quoted triple, not an IRI
                 if characters.peek().is_some_and(|&(_, next)| next == '<') {
                     characters.next();
+                    quoted_depth += 1;
                 } else {
                     in_iri = true;
                 }
             }
             '>' if in_iri => in_iri = false,
-            '#' if !in_iri && !in_literal => return &line[..offset],
+            '>' if !in_literal && quoted_depth > 0 => {
+                if characters.peek().is_some_and(|&(_, next)| next == '>') {
+                    characters.next();
+                    quoted_depth -= 1;
+                }
+            }
+            '#' if !in_iri && !in_literal && quoted_depth == 0 => return &line[..offset],
             _ => {}
         }
     }
